@@ -26,6 +26,7 @@ from .schema import (
     parse_schema,
 )
 from .types import Schema, AvroMessage, NamedSchemas
+from ._schema_common import default_datum
 from ._read_common import (
     SchemaResolutionError,
     MAGIC,
@@ -537,58 +538,6 @@ def skip_union(decoder, writer_schema, named_schemas):
     skip_data(decoder, writer_schema[index], named_schemas)
 
 
-def _default_datum(schema, default, named_schemas):
-    """The value that the JSON default of a reader field denotes for the
-    field's type: numbers of float/double fields are floats, bytes and fixed
-    are the bytes of the string's code points, and a record is completed with
-    the defaults of the fields the JSON object leaves out. Containers are built
-    anew so that records do not share (or expose) the schema's own objects."""
-    if isinstance(schema, list):
-        # The default of a union belongs to its first branch
-        return _default_datum(schema[0], default, named_schemas) if schema else default
-    record_type = extract_record_type(schema)
-    if record_type in named_schemas["reader"]:
-        schema = named_schemas["reader"][record_type]
-        record_type = extract_record_type(schema)
-    if not isinstance(schema, dict):
-        schema = {"type": record_type}
-    if extract_logical_type(schema):
-        return default
-    if record_type in ("float", "double"):
-        if isinstance(default, int) and not isinstance(default, bool):
-            return float(default)
-    elif record_type in ("bytes", "fixed"):
-        if isinstance(default, str):
-            return default.encode("iso-8859-1")
-    elif record_type == "array":
-        if isinstance(default, list):
-            return [
-                _default_datum(schema["items"], item, named_schemas)
-                for item in default
-            ]
-    elif record_type == "map":
-        if isinstance(default, dict):
-            return {
-                key: _default_datum(schema["values"], value, named_schemas)
-                for key, value in default.items()
-            }
-    elif record_type in ("record", "error"):
-        if isinstance(default, dict):
-            record = {}
-            for field in schema["fields"]:
-                if field["name"] in default:
-                    value = default[field["name"]]
-                elif "default" in field:
-                    value = field["default"]
-                else:
-                    continue
-                record[field["name"]] = _default_datum(
-                    field["type"], value, named_schemas
-                )
-            return record
-    return default
-
-
 def read_record(
     decoder,
     writer_schema,
@@ -654,8 +603,8 @@ def read_record(
             for f_name, field in readers_field_dict.items():
                 if f_name not in writer_fields and f_name not in record:
                     if "default" in field:
-                        record[field["name"]] = _default_datum(
-                            field["type"], field["default"], named_schemas
+                        record[field["name"]] = default_datum(
+                            field["type"], field["default"], named_schemas["reader"]
                         )
                     else:
                         msg = f"No default value for field {field['name']} in {reader_schema['name']}"
